@@ -142,3 +142,41 @@ Proof.
   pose proof (Z.div_pos (delta * ts) dur Hp Hd) as Hq.
   split; [lia|]. split; nia.
 Qed.
+
+(* ---- the same closed form for manifest requests: one 5xx entry addressed by update count *)
+Fixpoint manifest_run (fc : option Z) (errs : list (Z * mpos)) (upds : list (option Z)) (s : sess) : list (option Z) :=
+  match upds with
+  | [] => []
+  | u :: r => let '(o, s') := manifest_check fc errs u 0 0 s in o :: manifest_run fc errs r s'
+  end.
+Fixpoint spec_mrun (F code n h : Z) (upds : list (option Z)) : list (option Z) :=
+  match upds with
+  | [] => []
+  | u :: r => if match u with Some x => n =? x | None => false end
+              then (if h mod (F + 1) <? F then Some code else None) :: spec_mrun F code n (h + 1) r
+              else None :: spec_mrun F code n h r
+  end.
+
+Lemma manifest_run_exact F code n upds : forall s h,
+  0 <= F -> 0 <= h -> 500 <= code -> sget s (0, code) = h mod (F + 1) ->
+  manifest_run (Some F) [(code, MNum n)] upds s = spec_mrun F code n h upds.
+Proof.
+  induction upds as [|u r IH]; intros s h HF Hh Hc Hs; [reflexivity|].
+  cbn [manifest_run spec_mrun]. unfold manifest_check. cbn [inject manifest_hit].
+  destruct (match u with Some x => n =? x | None => false end) eqn:Eu.
+  - assert (E5 : (500 <=? code) = true) by lia. rewrite E5. rewrite Hs.
+    assert (Hstep : (h + 1) mod (F + 1) = if h mod (F + 1) <? F then h mod (F + 1) + 1 else 0).
+    { destruct (h mod (F + 1) <? F) eqn:Em.
+      - symmetry. apply Z.mod_unique with (q := h / (F + 1)); [left; lia|].
+        pose proof (Z.div_mod h (F + 1)). lia.
+      - symmetry. apply Z.mod_unique with (q := h / (F + 1) + 1); [left; lia|].
+        pose proof (Z.div_mod h (F + 1)). pose proof (Z.mod_pos_bound h (F + 1)). lia. }
+    pose proof (Z.mod_pos_bound h (F + 1)) as Hb.
+    remember (h mod (F + 1)) as m eqn:Hm0.
+    destruct (F <? m + 1) eqn:Ef.
+    + assert (Hm : (m <? F) = false) by lia. rewrite Hm in *.
+      f_equal. apply IH; try lia. rewrite sget_sset_same. lia.
+    + assert (Hm : (m <? F) = true) by lia. rewrite Hm in *.
+      f_equal. apply IH; try lia. rewrite sget_sset_same. lia.
+  - f_equal. apply IH; assumption.
+Qed.
